@@ -162,7 +162,13 @@ fn tol_of<F: Float>(inp: &Value) -> F {
     F::cast(t[0] as f64 / t[1] as f64)
 }
 
-fn run_traj<F: Float, D: Distance<F>>(inp: &Value, dist: D) -> Vec<Value> {
+/// number of huge-budget fits that did not return within HUGE_WAIT (their threads keep spinning until the
+/// process ends); after HUNG_MAX of them no further huge-budget fit is started
+static HUNG: std::sync::atomic::AtomicUsize = std::sync::atomic::AtomicUsize::new(0);
+const HUNG_MAX: usize = 4;
+const HUGE_WAIT: std::time::Duration = std::time::Duration::from_secs(20);
+
+fn run_traj<F: Float, D: Distance<F> + 'static>(inp: &Value, dist: D) -> Vec<Value> {
     let pts_i = imat(&inp["pts"]);
     let c0_i = imat(&inp["c0"]);
     let qs_i = imat(&inp["qs"]);
@@ -172,8 +178,9 @@ fn run_traj<F: Float, D: Distance<F>>(inp: &Value, dist: D) -> Vec<Value> {
     let qs: Array2<F> = arr(&qs_i, f);
     let k = c0.nrows();
     let form = gets(inp, "form");
-    let lp = Laid::new(&pts, form);
-    let lq = Laid::new(&qs, form);
+    let lp = Arc::new(Laid::new(&pts, form));
+    let lq = Arc::new(Laid::new(&qs, form));
+    let pw = pw_of(inp);
     // every restart starts from the same precomputed centroids, so n_runs > 1 must not change anything
     let nruns = geti(inp, "nruns") as usize;
     let mut out = Vec::new();
@@ -190,24 +197,52 @@ fn run_traj<F: Float, D: Distance<F>>(inp: &Value, dist: D) -> Vec<Value> {
             .n_runs(nruns)
             .tolerance(tol_of::<F>(inp))
             .max_n_iterations(m);
-        let res = guarded(|| {
-            if lp.owned() {
-                params.fit(&DatasetBase::from(lp.back.clone()))
-            } else {
-                params.fit(&DatasetBase::from(lp.view()))
-            }
-        });
+        // fit and observe; Ok(Ok(fields)) / Ok(Err(fit error)) / Err(panic message)
+        let (lp2, lq2) = (lp.clone(), lq.clone());
+        let work = move || {
+            guarded(|| {
+                let fitted = if lp2.owned() {
+                    params.fit(&DatasetBase::from(lp2.back.clone()))
+                } else {
+                    params.fit(&DatasetBase::from(lp2.view()))
+                };
+                fitted.map(|model| {
+                    let mut oo = vh::serde_json::Map::new();
+                    observe(&model, &lp2, &lq2, pw, &mut oo);
+                    oo
+                }).map_err(|e| e.to_string())
+            })
+        };
         let mut o = vh::serde_json::Map::new();
-        match &hm {
+        let res = match &hm {
             None => {
                 o.insert("ev".into(), json!("fit"));
                 o.insert("m".into(), json!(m));
+                work()
             }
             Some(sv) => {
+                // a budget of 2^32 and more never binds: the run must end by its tolerance after a few
+                // iterations. Run it on its own thread so that an implementation that does not stop
+                // cannot hang the harness; a fit that has not returned after HUGE_WAIT is logged as such.
                 o.insert("ev".into(), json!("fitx"));
                 o.insert("hm".into(), json!(sv));
+                if HUNG.load(std::sync::atomic::Ordering::SeqCst) >= HUNG_MAX {
+                    Ok(Err("not run: earlier fits with a huge iteration budget did not return".to_string()))
+                } else {
+                    let (tx, rx) = std::sync::mpsc::channel();
+                    std::thread::spawn(move || {
+                        let _ = tx.send(work());
+                    });
+                    match rx.recv_timeout(HUGE_WAIT) {
+                        Ok(r) => r,
+                        Err(_) => {
+                            HUNG.fetch_add(1, std::sync::atomic::Ordering::SeqCst);
+                            Ok(Err("fit did not return within 20 s (tolerance met after a few iterations)".to_string()))
+                        }
+                    }
+                }
             }
-        }
+        };
         match res {
             Err(msg) => {
                 out.push(panic_event("fit", &msg));
@@ -215,21 +250,11 @@ fn run_traj<F: Float, D: Distance<F>>(inp: &Value, dist: D) -> Vec<Value> {
             }
             Ok(Err(e)) => {
                 o.insert("ok".into(), json!(false));
-                o.insert("err".into(), json!(e.to_string()));
+                o.insert("err".into(), json!(e));
             }
-            Ok(Ok(model)) => {
+            Ok(Ok(oo)) => {
                 o.insert("ok".into(), json!(true));
-                match guarded(|| {
-                    let mut oo = vh::serde_json::Map::new();
-                    observe(&model, &lp, &lq, pw_of(inp), &mut oo);
-                    oo
-                }) {
-                    Ok(oo) => o.extend(oo),
-                    Err(msg) => {
-                        out.push(panic_event("observe", &msg));
-                        continue;
-                    }
-                }
+                o.extend(oo);
             }
         }
         out.push(Value::Object(o));
